@@ -49,9 +49,21 @@ func (header *Header) SerializationMethod() (*SerializationMethod, error) {
 	return &SerializationMethod{Style: style, Explode: explode}, nil
 }
 
+// headerValidationStackKey is the context key of the headers whose validation is in progress.
+type headerValidationStackKey struct{}
+
 // Validate returns an error if Header does not comply with the OpenAPI spec.
 func (header *Header) Validate(ctx context.Context, opts ...ValidationOption) error {
 	ctx = WithValidationOptions(ctx, opts...)
+
+	// a header can be one of the headers of an encoding of its own content: do not validate it again below itself
+	stack, _ := ctx.Value(headerValidationStackKey{}).([]*Header)
+	for _, h := range stack {
+		if h == header {
+			return nil
+		}
+	}
+	ctx = context.WithValue(ctx, headerValidationStackKey{}, append(stack[:len(stack):len(stack)], header))
 
 	if header.Name != "" {
 		return errors.New("header 'name' MUST NOT be specified, it is given in the corresponding headers map")
